@@ -173,6 +173,25 @@ func init() {
 	}})
 }
 
+func init() {
+	families = append(families, family{"ladder of n fragment triples reached under a type condition and without", func(n int) string {
+		names, conds := []string{"L", "R", "M"}, []string{"T1", "T2", "T1"}
+		var b strings.Builder
+		b.WriteString("{ node { ...L1 ...R1 ...M1 } }")
+		for i := 1; i <= n; i++ {
+			for k, f := range names {
+				if i == n {
+					fmt.Fprintf(&b, " fragment %s%d on Node { id }", f, i)
+					continue
+				}
+				sub := fmt.Sprintf("{ ...L%d ...R%d ...M%d }", i+1, i+1, i+1)
+				fmt.Fprintf(&b, " fragment %s%d on Node { next %s ... on %s { next %s } }", f, i, sub, conds[k], sub)
+			}
+		}
+		return b.String()
+	}})
+}
+
 type hooks struct{ g *gen.Schema }
 
 func (h hooks) OutcomeAt(string) model.Outcome { return model.OK }
